@@ -69,6 +69,31 @@ prop("C08",
   classes=["mixed-sign-same-start", "cancel-to-zero", "zero-value", "many-at-one-position", "book-ended-equal", "book-ended-different", "several-chromosomes", "identical"],
   extra_trusted=["itertools sorted_unstable_by_key / chunk_by contracts"])
 
+prop("C05",
+  level_text="Proof (Lean 4): for every region list and every history of insert(tag,k) / insert_at_index(i,k) / reset (indices in range), after the history the dense counter holds for each region, in supply order, the sum over the operations since the last reset of k for every tag overlapping that region on the same chromosome (duplicated regions each get the full count) plus what insert_at_index added to exactly that index, and total_count is the sum of all multiplicities since the last reset (C05_dense); the sparse counter's vector equals the dense one and the totals agree (C05_sparse_eq_dense); the sparse map keeps sorted in-range keys; a tag that merely touches a boundary or lies on another chromosome adds nothing (C05_touching_adds_nothing). The counters run on the model of GIntervalIndexSet, so the lookup is the proved one of C11/C02.",
+  level_note="Trusted: " + KERNEL + "; " + MODEL + "; " + HARN + "; counters are mathematical integers (harness uses i64 and u64 without overflow); total_count is an f64 in the Rust: exact while all partial sums are below 2^53 (generators respect this); BTreeMap modelled as a sorted association list.",
+  explanation="Theorems in lean/BedVerif/Props/C05.lean; invariants in Lemmas/Coverage05.lean. Correspondence: after every operation get_coverage, get_coverage_as_vec, both total_count, both len, over i64 and u64 counters; the spec (sums over the history since the last reset) is evaluated in Lean on the implementation's numbers.",
+  classes=["tag-touches-boundary", "tag-spans-3-regions", "tag-on-chrom-without-regions", "duplicated-regions", "empty-region-list", "reset-at-start", "reset-twice", "reset-between", "multiplicity-0", "multiplicity-negative", "multiplicity-large", "insert-at-index"],
+  extra_trusted=["f64 accumulation of integers is exact below 2^53"])
+
+prop("C18",
+  level_text="Proof (Lean 4): for every history over non-empty intervals, merge_overlaps yields a canonical list (non-empty, ascending, pairwise disjoint and non-adjacent) covering exactly the positions covered before, and applying it again changes nothing (C18_merge_canonical, C18_mergeList_canonical); a canonical list is determined by its covered set, so it is THE minimal disjoint non-adjacent cover (C18_canonical_unique), and it equals the specification-level canonical cover (maximal runs of the covered predicate) the driver computes (C18_merge_eq_canonicalCover); merges never change the covered set relative to the supplied intervals (C18_covered_supplied); the overlaps_merged flag implies canonical content (C18_merged_flag); afterwards find, count and seek answer for the current content and a later insert adds exactly its interval (C18_queries_after, C18_insert_after).",
+  level_note="Trusted: " + KERNEL + "; " + MODEL + "; " + HARN + "; " + NAT + "; the driver evaluates the position-enumerating spec only when all coordinates are <= 60000 and otherwise compares with the proved model only.",
+  explanation="Theorems in lean/BedVerif/Props/C18.lean; lemmas in Lemmas/C18{Merge,Hist,Runs}.lean and LapperInv.lean. Correspondence: histories with merges anywhere; iter, cov, find/count/seek before the final merge; iter and cov after one and two more merges; find/count after inserting a probe interval into the merged set; spec content computed in Lean from the history alone (canonical cover by run extraction).",
+  classes=["book-ended", "one-spans-all", "duplicates", "nested", "empty-set", "single", "separated-clusters", "history-has-merge", "insert-after-merge"])
+
+prop("C19",
+  level_text="Proof (Lean 4): the moving-interval sweep of calculate_coverage counts the covered positions (C19_calcCov_spec); for every history of insert / merge_overlaps / set_cov over non-empty intervals cov() — cached or computed — equals the number of positions covered by the current content, which is the number covered by the supplied intervals (C19_cov_spec, C19_cov_supplied); union_and_intersect returns (|A ∪ B|, |A ∩ B|) of the covered position sets on both code paths (both sets merged: pairwise sums through one carried seek cursor; otherwise materialise, merge, count) (C19_union_intersect); it is symmetric and independent of whether either side has been merged (C19_symm, C19_merged_irrelevant).",
+  level_note="Trusted: " + KERNEL + "; " + MODEL + "; " + HARN + "; " + NAT + " — in particular cov(a) + cov(b) is assumed not to overflow u64 (NoOverflow); spec evaluation in the driver only for coordinates <= 60000.",
+  explanation="Theorems in lean/BedVerif/Props/C19.lean; lemmas in Lemmas/C19{Count,Sweep,Union}.lean on top of C17 (seek) and C18 (merge). Correspondence: pairs of histories with all four merged/unmerged combinations forced in rotation and set_cov before later inserts/merges; observables cov of both, union_and_intersect both ways, union, intersect.",
+  classes=["merged-00", "merged-01", "merged-10", "merged-11", "cached-cov", "empty-side", "identical-sets", "disjoint", "set-cov-then-mutation"])
+
+prop("C20",
+  level_text="Proof (Lean 4): for every history over non-empty intervals depth() is the maximal run-length encoding of the pointwise depth: runs non-empty and ascending, inside a run the number of covering intervals is constant, positive and equal to the run's value, the runs tile exactly the covered positions, and two adjacent runs differ in depth (C20_depth_spec, structure IsDepthRLE); the empty set yields no runs (C20_depth_empty); the breakpoint-based Boolean checker the driver applies to the implementation's output is proved sound for that specification (C20_isDepthRLEB_sound). The proof follows the iterator: one carried seek cursor (C17), the merged helper cover (C18), the sentinel curr_merged_pos = 0, and a fuel measure showing the iterator terminates.",
+  level_note="Trusted: " + KERNEL + "; " + MODEL + "; " + HARN + "; " + NAT + " (position + 1 does not overflow: intervals end below u64::MAX).",
+  explanation="Theorems in lean/BedVerif/Props/C20.lean; lemmas in Lemmas/C20{Walk,Canon,Step,Inv,Drain,Top,Checker}.lean (about 820 lines). Correspondence: depth() collected on histories incl. the empty set, intervals starting at 0, nested stacks, book-ended chains, separated clusters at small and large offsets; the spec checker and the model are both compared with the implementation's runs.",
+  classes=["book-ended", "one-spans-all", "duplicates", "nested", "empty-set", "single", "starts-at-0", "separated-clusters", "after-merge", "large-offset"])
+
 if __name__ == "__main__":
     json.dump(P, open(os.path.join(V, "props_meta.json"), "w"), indent=1, ensure_ascii=False)
     subprocess.check_call([sys.executable, os.path.join(V, "tools", "gen_manifest.py")])
